@@ -154,3 +154,30 @@ pub fn p_c14_guard(depth: u8, delta: u8, hash: u64, which: u8) {
   }
   panic!("C14-GUARD-NOT-TRIGGERED: out-of-range cell number accepted by external_edge");
 }
+
+use hp::compass_point::MainWind;
+fn c14_wind(k: u8) -> MainWind {
+  match k { 0 => MainWind::S, 1 => MainWind::SE, 2 => MainWind::E, 3 => MainWind::SW,
+            4 => MainWind::NE, 5 => MainWind::W, 6 => MainWind::NW, _ => MainWind::N }
+}
+
+/// The seam tables used by the external edges: for a cell `a` on a base-cell border whose neighbour `c` in direction `dir` lies in
+/// another base cell, the tabulated "direction of a seen from c" must really lead from c back to a (neighbours is decided by C04).
+pub fn p_c14_dirs(depth: u8, a: u64, k: u8) {
+  let nh = spec_n_hash(depth);
+  if !(depth <= 29 && a < nh && k < 8) { return; }
+  let layer = hp::nested::get_or_create(depth);
+  let (b, i, j) = spec_decode(depth, a);
+  let m = (1u32 << depth) - 1;
+  let c = match layer.neighbour(a, c14_wind(k)) { Some(c) => c, None => return };
+  if (c >> (2 * depth as u32)) as u8 == b { return; }
+  let back = if depth == 0 {
+    hp::direction_from_neighbour(b, &c14_wind(k))
+  } else {
+    let ii = if i == 0 { 0u8 } else if i == m { 2 } else { 1 };
+    let jj = if j == 0 { 0u8 } else if j == m { 2 } else { 1 };
+    let inner = MainWind::from_index(3 * jj + ii);
+    hp::edge_cell_direction_from_neighbour(b, &inner, &c14_wind(k))
+  };
+  assert!(layer.neighbour(c, back) == Some(a), "C14: the tabulated direction of a border cell seen from its neighbour in another base cell is wrong");
+}
